@@ -19,6 +19,8 @@ int c17_cmp(const char *a, long an, const char *b, long bn, int pattern)
     char *pa = exact(a, an), *pb = exact(b, bn);
     int r;
     if (pattern >= 0) paint_stack(pattern);
+    /* "regardless of prior calls": whatever an earlier library call left in errno is part of that history */
+    errno = pattern == 1 ? ERANGE : pattern == 2 ? EINVAL : 0;
     r = (int) spiftool_version_compare((spif_charptr_t) pa, (spif_charptr_t) pb);
     free(pa);
     free(pb);
